@@ -57,6 +57,11 @@ META = {
   tie="Run: each extended event with generated contents inside generated contexts, followed by further events, through the three encoders of /repo both as extended call and as expansion: same decoded values, same stack depth, same success; adapters vs `expand`; unfolder targets unfolded both ways.",
   note="One recorded finding (UBJSON typed uint arrays needing 'H'). ",
   technique="Coq proof (adapter = expansion; state equality) + differential runs extended vs expanded"),
+ "C12": dict(
+  thm="Theorems (coq/Properties/C12.v): see the file.",
+  tie="Run: generated (type, value) pairs - struct types with every combination of the tag options on fields of every kind, pointer depth 0..3, interfaces holding any supported dynamic type, named types - are folded by /repo into a recording visitor (with and without the extended interfaces); the events must equal those of the extracted fold model (Gotype/Fold.v) and their value must equal the documented mapping (Gotype/FoldSpec.v, written from the documentation).",
+  note="User folders, Folder and IsZeroer implementations are not generated. ",
+  technique="Coq proof (fold model vs documented mapping) + extracted-model correspondence + direct oracle (spec_fold)"),
  "C16": dict(
   thm="Theorems (coq/Properties/C16.v): in the encoder models a failed write is returned by the call that made it (if every call returned nil the failing write was never attempted); adapters deliver nothing after a visitor error (see the file for components covered).",
   tie="Run (fault enumeration): writers/visitors failing from a generated index on, for encoders, parsers, adapters and Fold of /repo: an error must be returned no later than the last event, be the injected error itself, and nothing may be delivered after it; outcome must equal the model's.",
